@@ -464,7 +464,15 @@ func history(r *hx.Run, rng *gen.Rng, id string, maxW, maxH, frames int) error {
 		case 0:
 			s.render(true)
 		case 1:
+			if _, _, _, vis := s.vx.VerifC11CursorNext(); vis {
+				r.Count("resize-with-visible-cursor")
+			}
 			s.resize(rng.Range(1, maxW), rng.Range(1, maxH))
+			if rng.Chance(1, 4) {
+				// a second resize before the application has rendered (a segment without frames)
+				s.resize(rng.Range(1, maxW), rng.Range(1, maxH))
+				r.Count("resize-twice-without-frame")
+			}
 			s.drawOps(rng.Intn(4), styles)
 			s.render(false)
 		default:
